@@ -127,7 +127,14 @@ fn main() {
         }
         Some("c12-fresh") => c12::fresh_main(args[1].parse().unwrap()),
         Some("debug-c13-seeds") => c13::debug_seeds(),
-        Some("dump-mini") => { for c in c01::all_cases(Tier::Thorough) { if c.name == args[1] { println!("{}", mini::pprog(&c.prog)); } } }
+        Some("dump-mini") => { for c in c01::all_cases(Tier::Thorough) { if c.name == args[1] { println!("{}", c.source()); } } }
+        Some("count-mini") => {
+            for tier in [Tier::Quick, Tier::Thorough] {
+                let mut m: std::collections::BTreeMap<String, usize> = Default::default();
+                for c in c01::all_cases(tier) { *m.entry(c.name.split([':', '#']).next().unwrap().to_string()).or_default() += 1; }
+                println!("{tier:?}: {m:?}");
+            }
+        }
         Some("dump-snip") => {
             for s in exec::snippets(Tier::Thorough) {
                 if s.name == args[1] {
